@@ -71,12 +71,7 @@ func allChecks(src []byte, r *rng.R, tie bool, golevel bool) {
 		}
 		checkQuoteGo(src, prefix, capacity, tie)
 		checkUnquoteGo(src, tie)
-		// HTMLEscape: prefixes short enough for the destination growth rule (see htmlPrefixCases for the rest)
-		hp := prefix
-		if len(hp) > n*3/2+64 {
-			hp = hp[:n*3/2+64]
-		}
-		checkHTMLGo(src, hp, capacity, tie)
+		checkHTMLGo(src, prefix, capacity, tie)
 		repl := "\xef\xbf\xbd"
 		if r.Intn(4) == 0 {
 			repl = []string{"", "?", `\ufffd`}[r.Intn(3)]
@@ -324,7 +319,8 @@ func genAll(r *rng.R, thorough bool) {
 		}
 	}
 
-	// 7. HTMLEscape into destinations with long prefixes and little spare capacity
+	// 7. HTMLEscape into destinations with long prefixes and little spare capacity (regression of the panic
+	//    repaired by e1e5e27: len(dst) > len(src)*3/2+64 with less than len(src)+64 spare bytes)
 	htmlPrefixCases(r.Fork(5))
 
 	// 8. through Marshal / Unmarshal in this process's back end
